@@ -133,6 +133,31 @@ func Charge(r Request, cap NodeCap) [3]float64 {
 	return c
 }
 
+// ChargeUpper is an upper bound of what a pod placed on node costs its queues (used where an oracle argues that
+// something still fits under a limit): a gpu-memory request is charged against the device memory as the scheduler
+// reads it (the label floored to 100 MiB), rounded up to hundredths of a device.
+func ChargeUpper(r Request, cap NodeCap) [3]float64 {
+	c := Charge(r, cap)
+	if r.Fraction <= 0 && r.GPUMem > 0 {
+		m := cap.GPUMem - cap.GPUMem%100
+		per := 1.0
+		if m > 0 {
+			per = math.Ceil(float64(r.GPUMem)/float64(m)*100) / 100
+		}
+		up := per * float64(r.Devices)
+		for k, v := range r.Ext {
+			if mm := migRe.FindStringSubmatch(k); mm != nil {
+				g, _ := strconv.Atoi(mm[1])
+				up += float64(g) * float64(v)
+			}
+		}
+		if up > c[RGPU] {
+			c[RGPU] = up
+		}
+	}
+	return c
+}
+
 type QueueFacts struct{ Adds, NearLimit, NearQuota, OverAtStart, FailedCall int }
 
 type qAcc struct{ all, np [3]float64 }
